@@ -25,7 +25,7 @@ RULE = ('cases: seeded histories of 15-30 add/remove/lookup ops over a universe 
 ASSUMPTIONS = ['agents\' component sets are not modified while resident (C03\'s dimension)',
                'an out-of-bounds placement may raise any Exception subclass other than DuplicateAgentError (the documented error is a bare Exception)',
                'snapshots read documented public attributes']
-FLOORS = {'quick': {'histories_continued_after_the_model_completed': 74, 'pattern_like_or_unnormalised_ids': 450, 'simultaneous_iterations': 744, 'cases_in_mode_warnings': 40, 'cases_in_mode_optimised': 40, 'histories_continued_on_a_deep_copy': 127, 'joins_failing_half_way': 160, 'agents_built_for_another_model': 251, 'listings_edited_by_the_caller': 1108, 'falsy_agent_objects': 319, 'deprecated_alias_calls': 308, 'probe_dup_same': 3000, 'probe_dup_impostor': 3000, 'probe_remove_unknown': 3000, 'probe_strict_unknown': 3000,
+FLOORS = {'quick': {'operations_after_which_nobody_looked': 1140, 'histories_continued_after_the_model_completed': 74, 'pattern_like_or_unnormalised_ids': 450, 'simultaneous_iterations': 725, 'cases_in_mode_warnings': 40, 'cases_in_mode_optimised': 40, 'histories_continued_on_a_deep_copy': 127, 'joins_failing_half_way': 160, 'agents_built_for_another_model': 251, 'listings_edited_by_the_caller': 1108, 'falsy_agent_objects': 319, 'deprecated_alias_calls': 308, 'probe_dup_same': 3000, 'probe_dup_impostor': 3000, 'probe_remove_unknown': 3000, 'probe_strict_unknown': 3000,
                     'probe_oob': 5000, 'probe_oob_taken_id': 500, 'middle_removals': 384, 'big_environments': 4, 'big_ops': 1000, 'edge_placements': 200,
                     'accessor_comparisons': 5000, 'rejected_agent_without_position': 5000, 'contract:Environment.registry': 50000, 'contract:SpaceWorld.containment': 50000,
                     'reach:Core.Environment.add_agent': 5000, 'reach:Environments.SpaceWorld.add_agent': 5000},
